@@ -66,7 +66,10 @@ RTVerdict(r) ==
   ELSE IF r.err # "" \/ r.diff # <<>> THEN "mismatch"      \* Decode(Encode(e)) = e for every representable e
   ELSE "ok"
 
-Verdict(r) == IF r.kind = "rt" THEN RTVerdict(r) ELSE TamperVerdict(r)
+\* the untampered logs (L and the foreign log F), in each encoding, must verify
+BaselineVerdict(r) == IF r.ok = Validate(IF r.log = "L" THEN L ELSE F).ok THEN "ok" ELSE "mismatch"
+
+Verdict(r) == IF r.kind = "rt" THEN RTVerdict(r) ELSE IF r.kind = "baseline" THEN BaselineVerdict(r) ELSE TamperVerdict(r)
 
 Report(i) ==
   LET r == Trace[i]
@@ -74,8 +77,8 @@ Report(i) ==
   IF v = "ok" THEN TRUE
   ELSE PrintT(ToJson([l |-> i, verdict |-> v,
                       tag |-> IF v = "finding" THEN TagOf(TouchedFields(r)) ELSE "",
-                      model_accepts |-> IF r.kind = "rt" \/ v \in {"malformed", "notapplied"} THEN FALSE ELSE ModelAccepts(r),
-                      model_reason |-> IF r.kind \in {"rt", "trunc"} \/ v \in {"malformed", "notapplied"} \/ NoOp(r) \/ Derailed(r)
+                      model_accepts |-> IF r.kind = "baseline" THEN TRUE ELSE IF r.kind = "rt" \/ v \in {"malformed", "notapplied"} THEN FALSE ELSE ModelAccepts(r),
+                      model_reason |-> IF r.kind \in {"rt", "trunc", "baseline"} \/ v \in {"malformed", "notapplied"} \/ NoOp(r) \/ Derailed(r)
                                        THEN "" ELSE Validate(ModelLog(r)).reason]))
 
 TInit == l = 1 /\ Logs /\ case = [kind |-> "trace"]
